@@ -133,6 +133,8 @@ class Fn:
                 return f"(EGetattrDefault {self.expr(n.args[0])} {q(n.args[1].value)} {self.expr(n.args[2])})"
             if f.id == "str" and len(n.args) == 1:
                 return f"(EStrOf {self.expr(n.args[0])})"
+            if f.id == "type" and len(n.args) == 1:
+                return f"(ECall {q('type')} [{self.expr(n.args[0])}] None)"
             if f.id in MODULE_FUNCS:
                 return f"(ECall {q(f.id)} [" + "; ".join(self.expr(a) for a in n.args) + "] None)"
         # method calls: self.m(...), __self.m(...), __context.call(...), super().m(...)
@@ -404,7 +406,7 @@ Definition acc_getattr (o : value) (a : string) : outcome (pv value) :=
   | _ => match py_getattr o a with Some v => Norm (PObj v) | None => Exc "AttributeError" end
   end.
 Definition key_of_pv (k : pv value) : option key :=
-  match k with PStr s => Some (KStr s) | PInt z => Some (KInt z) | _ => None end.
+  match k with PStr s => Some (KStr s) | PInt z => Some (KInt z) | PSub c s => Some (KSub c s) | _ => None end.
 Definition acc_getitem (o : value) (k : pv value) : outcome (pv value) :=
   match o with
   | VUndef => Exc "UndefinedError"
@@ -419,6 +421,8 @@ Definition acc_call (tb : tables) (f : string) (args : list (pv value)) : list n
   if String.eqb f "self.is_safe_attribute" then
     match args with
     | [PObj o; PStr a; _] => lift_bool (src_safe tb (kind_of o) a)
+    | [PObj o; PSub content _; _] => lift_bool (src_safe tb (kind_of o) content)
+        (* a str-subclass instance passed on as the name: startswith() etc. see its content *)
     | _ => ([], Exc "TypeError")
     end
   else if String.eqb f "self.wrap_str_format" then
@@ -447,7 +451,7 @@ Definition visible (r : result) : list noev * outcome (pv value) :=
 Definition src_getattr (tb : tables) (o : value) (a : string) : list noev * outcome (pv value) :=
   run value noev acc_globals yes acc_getattr acc_getitem (acc_call tb) exn_isa body_getattr
       [(%(ga_self)s, PNone); (%(ga_obj)s, PObj o); (%(ga_attr)s, PStr a)].
-Definition pv_of_key (k : key) : pv value := match k with KStr s => PStr s | KInt z => PInt z end.
+Definition pv_of_key (k : key) : pv value := match k with KStr s => PStr s | KInt z => PInt z | KSub c s => PSub c s end.
 Definition src_getitem (tb : tables) (o : value) (k : key) : list noev * outcome (pv value) :=
   run value noev acc_globals yes acc_getattr acc_getitem (acc_call tb) exn_isa body_getitem
       [(%(gi_self)s, PNone); (%(gi_obj)s, PObj o); (%(gi_arg)s, pv_of_key k)].
@@ -478,17 +482,30 @@ Qed.
 
 (* ================================================================== is_safe_callable / call
    objects: the values of Model/SbxCall; events: safety checks and invocations *)
-Definition sc_getattr (c : callable) (a : string) : outcome (pv callable) :=
-  if String.eqb a "unsafe_callable" then (if c_unsafe c then Norm (PBool true) else Exc "AttributeError")
-  else if String.eqb a "alters_data" then (if c_alters c then Norm (PBool true) else Exc "AttributeError")
-  else Exc "AttributeError".
-Definition src_safecall (c : callable) : list noev * outcome (pv callable) :=
-  run callable noev no_globals yes sc_getattr no_getitem no_call exn_isa body_safecall
-      [(%(sc_self)s, PNone); (%(sc_obj)s, PObj c)].
+Inductive scobj := SCObj (c : callable) | SCType (c : callable) | SCCallAttr (c : callable).
+Definition sc_flag {O} (b : bool) : outcome (pv O) := if b then Norm (PBool true) else Exc "AttributeError".
+Definition sc_getattr (o : scobj) (a : string) : outcome (pv scobj) :=
+  match o with
+  | SCObj c => if String.eqb a "unsafe_callable" then sc_flag (c_unsafe c)
+               else if String.eqb a "alters_data" then sc_flag (c_alters c) else Exc "AttributeError"
+  | SCType c => if String.eqb a "__call__" then Norm (PObj (SCCallAttr c)) else Exc "AttributeError"
+  | SCCallAttr c => if String.eqb a "unsafe_callable" then sc_flag (c_call_unsafe c)
+                    else if String.eqb a "alters_data" then sc_flag (c_call_alters c) else Exc "AttributeError"
+  end.
+Definition sc_call (f : string) (args : list (pv scobj)) : list noev * outcome (pv scobj) :=
+  if String.eqb f "type" then
+    match args with [PObj (SCObj c)] => ([], Norm (PObj (SCType c))) | _ => ([], Exc "TypeError") end
+  else ([], Exc "NameError").
+Definition src_safecall (c : callable) : list noev * outcome (pv scobj) :=
+  run scobj noev no_globals yes sc_getattr no_getitem sc_call exn_isa body_safecall
+      [(%(sc_self)s, PNone); (%(sc_obj)s, PObj (SCObj c))].
 
 Theorem is_safe_callable_source_eq_model : forall c,
   src_safecall c = ([], Norm (PBool (is_safe_callable_default c))).
-Proof. intros [i u a fm]. unfold src_safecall, body_safecall, is_safe_callable_default, run. destruct u, a; reflexivity. Qed.
+Proof.
+  intros [i u a fm cu ca]. unfold src_safecall, body_safecall, is_safe_callable_default, run.
+  destruct u, a, cu, ca; reflexivity.
+Qed.
 
 Fixpoint unwrap (l : list (pv cval)) : list cval :=
   match l with [] => [] | PObj v :: r => v :: unwrap r | _ :: r => CVUndef :: unwrap r end.
